@@ -18,12 +18,12 @@ import (
 func init() { streams["plan"] = streamPlan }
 
 type pent struct {
-	issuer                    int // -1 = root
-	cfgT, fileT               int
-	art                       int // 0 absent, 1 cert+key, 2 cert+request, 3 key only, 4 cert only, 5 request only
-	hash                      int // 0 none, 1 equal, 2 different
-	exp                       int // 0 not expired/future until, 1 expired/future until, 2 expired/past until, 3 not expired/past until
-	valid                     bool
+	issuer      int // -1 = root
+	cfgT, fileT int
+	art         int // 0 absent, 1 cert+key, 2 cert+request, 3 key only, 4 cert only, 5 request only
+	hash        int // 0 none, 1 equal, 2 different
+	exp         int // 0 not expired/future until, 1 expired/future until, 2 expired/past until, 3 not expired/past until
+	valid       bool
 }
 
 type sdb struct {
